@@ -65,3 +65,19 @@ CHECKS += [
      "note": _NOTE + "; two known findings (MProcess (x) MProcess element layout vs reported shape; joint POVM factor on non-adjacent subsystems raises) are listed in known_findings.json; channel products limited to <= 3 qubits / 2 qutrits by memory"},
 ]
 NOT_APPLICABLE = [x for x in NOT_APPLICABLE if x["property_id"] not in {c["id"] for c in CHECKS}]
+
+CHECKS += [
+    {"id": "C02", "design": "DESIGN.md#c02-representations-denote-one-operator",
+     "technique": "runtime contracts on 50 conversion functions/methods comparing input and output as operators / super-operators with the reference model; linear conversions decided per configuration on a complete real basis of the input space plus linearity",
+     "text": "Every hooked conversion (vec/density/POVM matrices, HS, Choi x3 implementations, Kraus, process matrix, computational-basis forms row/column major, convert_hs / convert_vec / convert_basis, truncate_hs) is compared with its defining formula evaluated by the reference; alternative implementations, round trips and linearity are checked by the driver. Linear conversions are evaluated on a complete real basis of their input space per (type, shape, Hermitian orthonormal basis) configuration - two linear maps agreeing on a basis agree everywhere - and the non-linear ones (Kraus extraction, truncation) on random CP maps of every Kraus rank and on matrices straddling the thresholds.",
+     "note": _NOTE + "; shapes beyond 2 qubits / qubit x qutrit are not driven; non-orthonormal or non-Hermitian bases are not judged"},
+    {"id": "C18", "design": "DESIGN.md#c18-lindbladian-generators",
+     "technique": "runtime contracts on the EffectiveLindbladian generators, extractors, part functions, verdicts, projections and to_gate against the GKSL right-hand side and a Choi/process-matrix decomposition of the reference; three-zone rule for verdicts",
+     "text": "Generators built from H, K and jump operators (1..d^2, non-zero trace) are compared in their action on a complete set of states with the GKSL equation; extracted H,J,K (incl. the identity component of J) with the unique decomposition derived from the Choi matrix; parts sum to the whole in both bases; extraction->rebuild reproduces hs; is_physical <=> first row zero and K PSD (three zones, indefinite K of controlled negativity); to_gate equals expm and is physical; eq projection zeroes exactly the first row; ineq projection gives PSD K and fixes physical generators; sparse tables equal their dense definitions. S1, S3, S2; strengths over 4 decades.",
+     "note": _NOTE + "; one known finding (jump-operator J part uses c instead of c^dagger c; six keys of one mechanism, each verified to equal exactly that formula) is listed in known_findings.json"},
+    {"id": "C19", "design": "DESIGN.md#c19-analytical-error-formulas",
+     "technique": "runtime contracts on the analytical covariance / MSE / Fisher / Cramer-Rao functions against exact expectations by complete enumeration of multinomial outcomes (running the real LinearEstimator on every count vector); helper functions against explicit-loop definitions",
+     "text": "For every schedule all count vectors are enumerated with integer multinomial weights; covariance = E[(f-p)(f-p)^T], MSE of the linear estimate in variable and object parametrisation = enumeration over one schedule at a time (decomposition proved in the module) through the real estimator, Fisher = E[score score^T], CRB = Tr F^-1/N (+ documented implied-element term for POVMs), scaling law beyond enumerable sizes; boundary truths against the documented eps rule; calc_se, calc_mse_prob_dists (mean, ddof=1 std), calc_direct_sum, calc_left_inv, calc_conjugate, compare_to_analytical against explicit definitions. 4 tomography types x flags x both modes, testers with 2..4 outcomes, n_j <= 8.",
+     "note": _NOTE + "; cases with cond(F) > 1e13 or probabilities in (1e-10,1e-6) are not judged"},
+]
+NOT_APPLICABLE = [x for x in NOT_APPLICABLE if x["property_id"] not in {c["id"] for c in CHECKS}]
